@@ -39,6 +39,22 @@ def C09(tier):
     return _count('C09', ['C09'], ['history-walked', 'qpq-restart'], tier)
 
 
+def C06(tier):
+    return _count('C06', ['C06'], ['quiescent-point', 'surplus-transfer-checked', 'exclusion-transfer-checked'], tier, gregory_only=True)
+
+
+def C07(tier):
+    return _count('C07', ['C07'], ['tie', 'single-exclusion', 'batch-exclusion', 'surplus-choice', 'tie-by-prior-stage'], tier, symtie=True)
+
+
+def C08(tier):
+    return _count('C08', ['C08'], ['clean-snapshot', 'omega-exit', 'elected-exit'], tier, meek_only=True)
+
+
+def C18(tier):
+    return _count('C18', ['C18'], ['audit-trail-walked'], tier)
+
+
 # ---------------------------------------------------------------------------------------------------
 # leaf laws
 
